@@ -23,6 +23,7 @@ func (m *MemoryKV) Acquire(ctx context.Context, lease []byte, ttl time.Duration)
 		return 0, chord.ErrKVLeaseInvalidTTL
 	}
 	v, _ := m.fetchVal(lease)
+	verifPoint("mem.fetched")
 	curr := v.lease.Load()
 	ref := time.Now() // questionable
 	if curr > uint64(ref.UnixNano()) {
@@ -41,6 +42,7 @@ func (m *MemoryKV) Renew(ctx context.Context, lease []byte, ttl time.Duration, p
 		return 0, chord.ErrKVLeaseInvalidTTL
 	}
 	v, _ := m.fetchVal(lease)
+	verifPoint("mem.fetched")
 	curr := v.lease.Load()
 	if curr == 0 {
 		return 0, chord.ErrKVLeaseExpired
@@ -60,6 +62,7 @@ func (m *MemoryKV) Renew(ctx context.Context, lease []byte, ttl time.Duration, p
 
 func (m *MemoryKV) Release(ctx context.Context, lease []byte, token uint64) error {
 	v, _ := m.fetchVal(lease)
+	verifPoint("mem.fetched")
 	if !v.lease.CompareAndSwap(token, 0) {
 		return chord.ErrKVLeaseExpired
 	}
